@@ -115,6 +115,24 @@ def run(prog, chk):
         r = g.reachable([mis], avoid=[n for n in g.nodes if n.kind == 'loophead'])
         ok = g.exit.id not in r and any(g.nodes[i].kind == 'throw' for i in r) and not any(x.id in r for x in ins + opush)
         chk.ob('R19.1', lm, c.ln, ok, 'a package mismatch can only throw', key='package-mismatch-throws')
+    # e'. every import that was resolved goes through the package comparison before the loop moves on (no shortcut around it)
+    resolves = calls(lambda e: e['k'] == 'mcall' and SX.short(e['callee']) in ('resolveImportPath',)) + \
+        [n for n in g.nodes if n.kind == 'decl' and SX.is_node(n.e.get('init')) and 'canonicalize' in SX.show(n.e['init']) and n is not canon_decl[0]]
+    heads = [n for n in g.nodes if n.kind == 'loophead']
+    # a wildcard import of the module's own package skips the module itself: `target == canon` — the only accepted shortcut
+    selfskip = []
+    for n in g.nodes:
+        if n.kind == 'edge':
+            cp = SX.cmp_parts(n.e)
+            if cp and ((cp[0] == '==' and n.pol) or (cp[0] == '!=' and not n.pol)) and any(
+                    SX.is_node(x) and SX.strip(x).get('k') == 'ref' and SX.strip(x).get('id') == cid for x in cp[1:]):
+                selfskip.append(n)
+    for i, rs in enumerate(resolves):
+        r = g.reachable([rs], avoid=pk_conds + selfskip)
+        # within the import loop: reaching a loop head again (next import / next wildcard target) or the exit without the comparison
+        inner = [h for h in heads if h.id in g.reachable([rs], forward=False)]
+        bad = (g.exit.id in r) or any(h.id in r for h in inner)
+        chk.ob('R19.1', lm, rs.ln, not bad, 'after an import target is resolved, no path may continue with the next import or finish without the package comparison', key='no-shortcut#%d' % i)
     # f/g. cache insert and order push strictly after the import loop, on every normal path after the push
     for what, nodes in (('cache insert', ins), ('order push', opush)):
         after = set()
@@ -151,6 +169,18 @@ def run(prog, chk):
         loops = [n for n in SX.walk(f.body) if n['k'] == 'forrange' and SX.is_node(SX.strip(n['range'])) and SX.strip(n['range']).get('k') == 'ref']
         first = any(any(x['k'] == 'return' for x in SX.walk(lp['body'], into_lambdas=False)) for lp in loops)
         chk.ob('R19.3', f, f.ln, first, '%s returns at the first root that has the module' % name, key='first-hit:' + name)
+    # resolution is a pure function of (name, importing directory, configured search paths, working directory)
+    from .C13 import _config_members
+    config = _config_members(prog, rec)
+    for name in ('resolveImportPath', 'resolvePackageModules'):
+        f = prog.fn('ModuleLoader::' + name)
+        touched = sorted({n['name'] for n in SX.walk(f.body) if n['k'] == 'member' and SX.is_node(n['base']) and n['base']['k'] == 'this' and n['name'] in fields})
+        bad = [m for m in touched if m not in config]
+        chk.ob('R19.3', f, f.ln, not bad, '%s may consult only configuration members (%s); it touches per-load state %s — a result remembered across importers ignores the importing directory' % (
+            name, sorted(config), bad), key='stateless:' + name)
+        # every successful result is derived from the root list (which starts from the importing directory)
+        uses_from = any(x['k'] == 'ref' and x.get('id') == f.params[1]['id'] for x in SX.walk(f.body))
+        chk.ob('R19.3', f, f.ln, uses_from, '%s uses the importing file\'s directory' % name, key='uses-fromdir:' + name, nontrivial=False)
     chk.ob('R19.3', 'ModuleLoader', 'src/bloch/compiler/import/module_loader.cpp', seqs['resolveImportPath'] == seqs['resolvePackageModules'],
            'single-file and wildcard imports search the same roots in the same order', key='roots-agree')
     f = prog.fn('ModuleLoader::resolvePackageModules')
